@@ -36,6 +36,7 @@ struct MacroArg {
   char *name;
   bool is_va_args;
   Token *tok;
+  Token *expanded; // The completely macro-replaced argument
 };
 
 typedef Token *macro_handler_fn(Token *);
@@ -638,7 +639,11 @@ static Token *subst(Token *tok, MacroArg *args, bool is_objlike) {
     // Handle a macro token. Macro arguments are completely macro-expanded
     // before they are substituted into a macro body.
     if (arg) {
-      Token *t = preprocess2(arg->tok);
+      // Expand a copy, once: the unexpanded argument is still needed
+      // for other occurrences of the parameter next to # or ##.
+      if (!arg->expanded)
+        arg->expanded = preprocess2(add_hideset(arg->tok, NULL));
+      Token *t = arg->expanded;
       t->at_bol = tok->at_bol;
       t->has_space = tok->has_space;
       for (; t->kind != TK_EOF; t = t->next)
